@@ -42,16 +42,23 @@ def instance(seed):
     rec = {"seed": seed, "nfref": nfref, "quarks": quarks, "outcome": "ok", "sorted": True, "resid": [99, 99, 99], "patch": [0, 0, 0],
            "order": order[0], "method": meth.value}
     info = CouplingsInfo(alphas=alphas, alphaem=0.00781, ref=(qref, nfref))
-    ratios = [1.0, 1.0, 1.0]
+    # half of the instances at unit ratios, the others with matching ratios and xif away from one
+    if rng.random() < 0.5:
+        ratios, xif2 = [1.0, 1.0, 1.0], 1.0
+    else:
+        ratios, xif2 = [rng.uniform(0.8, 1.3) for _ in range(3)], rng.choice([0.5, 1.0, 2.0, rng.uniform(0.6, 1.8)])
+    rec["ratios_unit"] = ratios == [1.0, 1.0, 1.0] and xif2 == 1.0
     try:
-        res = msbar_masses.compute(HeavyQuarkMasses(refs), info, order, meth, ratios, 1.0)
+        res = msbar_masses.compute(HeavyQuarkMasses(refs), info, order, meth, ratios, xif2)
     except Exception as ex:  # noqa: BLE001
         rec["outcome"] = type(ex).__name__
         rec["msg"] = str(ex)[:100]
         return rec
     res = np.asarray(res, dtype=float)
     rec["sorted"] = bool(np.all(np.diff(res) >= 0)) and bool(np.all(np.isfinite(res)))
-    sc = Couplings(info, order=order, method=meth, masses=res.tolist(), thresholds_ratios=ratios, hqm_scheme=QuarkMassScheme.MSBAR)
+    # the documented coupling: thresholds at m^2 * k^2 * xif^2
+    sc = Couplings(info, order=order, method=meth, masses=res.tolist(), thresholds_ratios=(np.array(ratios) * xif2).tolist(),
+                   hqm_scheme=QuarkMassScheme.MSBAR)
     for j, q in enumerate((1, 2, 3)):
         if quarks[j]["rm"] == "eq":
             continue
@@ -61,7 +68,7 @@ def instance(seed):
         nf_to = q + 3 if q + 3 <= nfref else q + 2
         rec["patch"][j] = nf_to
         try:
-            back = msbar_masses.evolve(m2_ref, q2m, sc, ratios, 1.0, res[j], nf_ref=nf_from, nf_to=nf_to)
+            back = msbar_masses.evolve(m2_ref, q2m, sc, ratios, xif2, res[j], nf_ref=nf_from, nf_to=nf_to)
             rel = abs(back - res[j]) / res[j]
             rec["resid"][j] = 99 if rel == 0 else int(math.floor(-math.log10(rel)))
         except Exception as ex:  # noqa: BLE001
